@@ -27,8 +27,10 @@ Definition C14_statement : Prop :=
 (* ------------------------------------------------------------------ *)
 (** * The tables *)
 
-(** Faithfulness, partial: every row outside the region "untyped float constant whose value is not
-    a dyadic rational" denotes exactly the object it is named after. *)
+(** Faithfulness, partial: every row outside the regions "untyped float constant whose value is not
+    a dyadic rational" and "untyped rune constant" ([row_region] = [const_region] of the object's
+    kind) denotes exactly the object it is named after: same identifier / exactly the same value,
+    and for literals the same untyped kind (token), i.e. the same default type. *)
 Theorem C14_faithful_partial :
   forall g f r, In g all_groups -> In f (g_files g) -> In r (f_rows f) ->
                 row_region g r = false -> row_ok const_g g f r = true.
@@ -73,6 +75,28 @@ Print Assumptions C14_tables_refuted.
 Theorem C14_statement_refuted : ~ C14_statement.
 Proof. exact statement_all_refuted. Qed.
 Print Assumptions C14_statement_refuted.
+
+(** Second refutation (the untyped KIND of a constant): a row of stdlib/go1_22_unicode_utf8.go (found
+    by computation: an untyped rune constant, "MaxRune"/"RuneError") is what the generator emits,
+    lies in the region, and does not denote the constant: the literal is an INT literal (default
+    type int) where Go declares a rune constant (default type rune).
+    Replay: fmt.Printf("%T", utf8.RuneError) prints int32 compiled and int under yaegi. *)
+Theorem C14_rune_tables_refuted :
+  exists g f r z, In g all_groups /\ In f (g_files g) /\ In r (f_rows f)
+    /\ row_kind g r = Some (KURune z) /\ row_ok const_y g f r = true /\ row_region g r = true
+    /\ row_ok const_g g f r = false.
+Proof. exact rune_refuted. Qed.
+Print Assumptions C14_rune_tables_refuted.
+
+(** ... and this is so for EVERY untyped rune constant and every bound expression (unbounded): what
+    the generator model accepts is an INT literal of exactly the constant's value (the value is
+    never wrong) and the property rejects it (the kind always is). *)
+Theorem C14_generator_rune_refuted :
+  forall f tp name z fm, obj_row_ok const_y f tp name (KURune z) fm = true ->
+    (exists lit n d, fm = FLit TINT lit /\ parse_literal TINT lit = Some (n, d) /\ n * 1 = z * d)
+    /\ obj_row_ok const_g f tp name (KURune z) fm = false.
+Proof. exact obj_row_rune_spec. Qed.
+Print Assumptions C14_generator_rune_refuted.
 
 (* ------------------------------------------------------------------ *)
 (** * The tables of the other platforms (cross-platform rows, quick set) *)
@@ -129,7 +153,8 @@ Print Assumptions C14_complete_upto_nil.
 
 (** [row_ok const_g] on an object row is the relation [denotes] (Bind/Proofs.v): same qualifier
     and identifier, variables by address, types as nil pointers, documented replacements from the
-    regenerated restricted table, literals of exactly the constant's value. *)
+    regenerated restricted table, literals of exactly the constant's value AND untyped kind (an
+    untyped rune constant is denoted by CHAR literals only: [D_rune]). *)
 Theorem C14_decides_denotation :
   forall f tp name k fm, obj_row_ok const_g f tp name k fm = true <-> denotes f tp name k fm.
 Proof. exact obj_row_ok_denotes. Qed.
